@@ -105,8 +105,8 @@ CLAIMED = {
             "sync.Pool reuse is made likely (single P, no GC), not guaranteed; user-supplied selector paths (ProtocolCustom/ExtensionCustom) are outside the property.",
             "7/C17"),
     "C19": ("model_checking",
-            "TLA+ Pools model (NonInterference under all interleavings, early-Put planted bug) + stress of N concurrent real sessions compared with their solo behaviour + Go race detector",
-            "Pools.tla: with Put deferred to the end of an operation every session derives what it would alone, for all interleavings of 2-3 sessions (TLC); an early Put violates it (anti-vacuity). Real code: N in {2,8,64} concurrent sessions x GOMAXPROCS {1,2,16} (x6 rounds in thorough), each a full connection over its own buffered duplex (handshake through DefaultDialer/ws.Upgrade or configured peers with subprotocols and permessage-deflate, messages 0..70000 bytes fragmented by small writers, pings, pooled GetWriter/PutWriter echo, close handshake) with seeded Gosched/short-read jitter: the ordered observations of every session equal those of the same session run alone; the same driver built with -race must report no data race.",
+            "TLA+ Pools model (NonInterference under all interleavings, early-Put planted bug) + TLA+ WsConn model of one connection (client, echo server, channels; safety + liveness, two planted bugs) with trace validation of the frame events of real concurrent connections + stress of N concurrent real sessions compared with their solo behaviour (also from a cold process start) + Go race detector",
+            "Pools.tla: with Put deferred to the end of an operation every session derives what it would alone, for all interleavings of 2-3 sessions (TLC); an early Put violates it (anti-vacuity). Real code: N in {2,8,64} concurrent sessions x GOMAXPROCS {1,2,16} (x6 rounds in thorough), each a full connection over its own buffered duplex (handshake through DefaultDialer/ws.Upgrade or configured peers with subprotocols and permessage-deflate, messages 0..70000 bytes fragmented by small writers, pings, pooled GetWriter/PutWriter echo, close handshake) with seeded Gosched/short-read jitter: the ordered observations of every session equal those of the same session run alone; the same driver built with -race must report no data race; cold-start processes (the first 16 sessions of a process start together) are run plain and under -race; sessions of two kinds share package-level dialers. WsConn.tla: every concurrent connection (24 client programmes, 1/4/32 at once) is linearised by the single lock of the harness' duplex and replayed frame by frame into the connection model (TraceWsConn), whose invariants EchoCorrect, PongCorrect, CloseCorrect, NothingAfterClose, Complete are evaluated after every step.",
             "The Go scheduler is not controllable: schedules are sampled, not enumerated.",
             "7/C19"),
 }
